@@ -251,6 +251,10 @@ func handleExceptionSignal(vm *r.VM, blockModule *r.Module, catchBlock []*syntax
 	for _, catchBlockItem := range catchBlock {
 		classID, err := MatchIDName(catchBlockItem.ExceptionClass)
 		if err != nil {
+			// this error arises here, in the body that looks for its handler: it replaces the
+			// exception, whose frames (calls that are over by now) are not its own
+			vm.ClearErrorCallStack()
+			vm.SetCurrentLine(catchBlockItem.ExceptionClass.GetCurrentLine())
 			return nil, err
 		}
 
